@@ -51,6 +51,17 @@ ORACLE_RULES = {
     "concrete-false": [A("ULT(x, 3)"), A("false"), CORE(), SAT(), CORE(), {"s": 0, "op": "branch"}, A("b", 1), CORE(1)],
     "concrete-false-first": [A("x != x"), CORE(), A("y == 6"), CORE(), CORE(0, ["b"])],
     "concrete-false-in-one-add": [{"s": 0, "op": "add", "cs": ["y == 6", "BVV(3, 4) == BVV(4, 4)", "ULT(z, 2)"]}, CORE(), {"s": 0, "op": "simplify"}, CORE()],
+    # a question spanning two independent constraint sets (whoever combines what it holds about x and about y may remember the
+    # combination), branch twice, two of the solvers each add a constraint over exactly {x, y} - each satisfiable on its own
+    "spanning-question-then-two-branches-add": [A("ULT(x, 3)"), A("SLT(y, 0)"), {"s": 0, "op": "eval", "e": "x + ZeroExt(1, y)", "n": 1, "extra": []},
+                                                {"s": 0, "op": "branch"}, {"s": 0, "op": "branch"}, A("x + ZeroExt(1, y) == 9", 1),
+                                                A("x + ZeroExt(1, y) == 4", 2), CORE(2), CORE(1), CORE(0), SAT(2), SAT(1)],
+    # thread hand-off (the calls run strictly one after the other): after a branch the parent is asked, grows and is asked again
+    # in a WORKER thread; back in the main thread it gets a constraint that contradicts what parent and child share
+    "parent-used-by-worker-after-branch": [A("ULE(x, 11)"), SAT(), {"s": 0, "op": "branch"}, dict(SAT(), t=1), dict(A("SLT(y, 0)"), t=1), dict(SAT(), t=1),
+                                           A("UGE(x, 12)"), CORE(0), CORE(1), A("x == 9", 1), CORE(1)],
+    "child-used-by-worker-after-branch": [A("ULE(x, 11)"), SAT(), {"s": 0, "op": "branch"}, A("ULT(z, 2)", 1), dict(SAT(1), t=1), dict(A("UGE(x, 12)", 1), t=1),
+                                          dict(CORE(1), t=1), CORE(1), CORE(0), A("x == 9", 0), CORE(0)],
     "two-unsat-children": [A("ULT(x, 3)"), A("UGE(x, 8)"), A("y == 6"), A("y * y == 3"), A("ULT(z, 2)"), CORE(), SAT(), CORE(0, ["z == 5"]), CORE()],
 }
 ORACLE_CLASSES = ["Solver", "SolverComposite", "SolverCacheless", "SolverHybrid"]
@@ -96,6 +107,16 @@ def oracle_jobs(ctx, mult=1):
             else:
                 jobs.append({"cls": cls, "cfg": {"track": True, "reuse": i % 4 == 0}, "len": ctx.pick(3, 10),
                              "gen": dict(gen, shape="annotated-core" if i % 3 == 1 else "core-whatif")})
+        # (a) two variables with range constraints of their own, ONE question spanning exactly both, branch (twice), one or two of the
+        # solvers add a constraint over exactly both, every solver is asked for its core and about expressions over both;
+        # (b) thread hand-off: after a branch one side is used by a worker thread in between (ask, add, ask), gets a contradicting
+        # constraint in the main thread, cores of both sides; random tails
+        for i in range(ctx.pick(12, 80) * mult):
+            jobs.append({"cls": cls, "cfg": {"track": True, "reuse": i % 4 == 0}, "len": ctx.pick(3, 10),
+                         "gen": {"shape": "span-then-branch", "prefix_args": {"core": True}, "weights": WEIGHTS, "core_extra": 0.3}})
+        for i in range(ctx.pick(12, 80) * mult):
+            jobs.append({"cls": cls, "cfg": {"track": True, "reuse": False}, "len": ctx.pick(3, 10),
+                         "gen": {"shape": "worker-between", "prefix_args": {"core": True}, "weights": WEIGHTS, "threads": 1}})
     return jobs
 
 
@@ -112,7 +133,9 @@ def run(ctx):
                        "then the solver's own core; directed openings: own constraints unsatisfiable by a solver-only conflict + harmless "
                        "constraint, question, what-if core blaming the extras, own core (again, on a branch); oracle-only stream on Solver, "
                        "SolverComposite, SolverCacheless, SolverHybrid: constraints carrying annotations (Bool-level Origin / Uninitialized, annotated "
-                       "variables), syntactic contradictions among them, concretely false constraints; core elements compared by AST identity; "
+                       "variables), syntactic contradictions among them, concretely false constraints, openings `question spanning two independent "
+                       "variables, branches, two solvers add over exactly both` and `one side of a branch used by a worker thread in between`; "
+                       "core elements compared by AST identity; "
                        "non-trivial = history with >= 3 calls")
     tie_ok = True
     try:
